@@ -1,11 +1,11 @@
 import NixModel.Lemmas.C04Del
 
 /-!
-# C04 — the breadth-first id collection (`find_sections` / `find_sources`, unlimited depth)
+# C04 — the breadth-first collection of a subtree (`find_sections` / `find_sources`, unlimited depth)
 
-`bfsIds` is fuel-based (the graph model does not carry the invariant that sections / sources form
-a forest). Completeness is proved for every run that ends with an empty queue, and the queue does
-end empty within the fuel `|nodes|² + 1` of `subtreeIds` whenever the subtree is a finite forest
+`bfsKeys` is fuel-based (the graph model does not carry the invariant that sections / sources form
+a forest). Soundness holds always (only entities at or below the start are collected); completeness is proved for every run that ends with an empty queue, and the queue does
+end empty within the fuel `|nodes|² + 1` of `subtreeKeys` whenever the subtree is a finite forest
 (`ForestSize`: no cycle through the sub-containers) with at most that many nodes — in files built
 through the API each section / source has one parent, so the count is at most `|nodes|`.
 -/
@@ -23,38 +23,36 @@ inductive Desc (g : Graph) (sub : String) : Nat → Nat → Prop
   | refl (k : Nat) : Desc g sub k k
   | step {k m d : Nat} : m ∈ kids g sub k → Desc g sub m d → Desc g sub k d
 
-/-- the queue that is left when `bfsIds` stops -/
+/-- the queue that is left when `bfsKeys` stops -/
 def bfsRest (g : Graph) (sub : String) : Nat → List Nat → List Nat
   | 0, queue => queue
   | _ + 1, [] => []
   | fuel + 1, k :: queue => bfsRest g sub fuel (queue ++ kids g sub k)
 
-theorem bfsIds_step (g : Graph) (sub : String) (fuel k : Nat) (queue : List Nat) (acc : List String) :
-    bfsIds g sub (fuel + 1) (k :: queue) acc =
-      bfsIds g sub fuel (queue ++ kids g sub k)
-        (match g.entityId k with | some i => acc ++ [i] | none => acc) := by
-  rw [bfsIds]
+theorem bfsKeys_step (g : Graph) (sub : String) (fuel k : Nat) (queue : List Nat) (acc : List Nat) :
+    bfsKeys g sub (fuel + 1) (k :: queue) acc =
+      bfsKeys g sub fuel (queue ++ kids g sub k) (acc ++ [k]) := by
+  rw [bfsKeys]
   unfold kids
   rfl
 
-theorem bfsIds_acc_sub (g : Graph) (sub : String) (fuel : Nat) (queue : List Nat) (acc : List String)
-    (i : String) (hi : i ∈ acc) : i ∈ bfsIds g sub fuel queue acc := by
+theorem bfsKeys_acc_sub (g : Graph) (sub : String) (fuel : Nat) (queue : List Nat) (acc : List Nat)
+    (x : Nat) (hx : x ∈ acc) : x ∈ bfsKeys g sub fuel queue acc := by
   induction fuel generalizing queue acc with
-  | zero => simpa [bfsIds] using hi
+  | zero => simpa [bfsKeys] using hx
   | succ fuel ih =>
     cases queue with
-    | nil => simpa [bfsIds] using hi
+    | nil => simpa [bfsKeys] using hx
     | cons k queue =>
-      rw [bfsIds_step]
+      rw [bfsKeys_step]
       apply ih
-      cases g.entityId k <;> simp [hi]
+      simp [hx]
 
-/-- **completeness of the collection**: when the traversal ends with an empty queue, the id of
-every entity at or below a queued entity has been collected -/
-theorem bfsIds_complete (g : Graph) (sub : String) (fuel : Nat) (queue : List Nat) (acc : List String)
+/-- **completeness of the collection**: when the traversal ends with an empty queue, every entity at
+or below a queued entity has been collected -/
+theorem bfsKeys_complete (g : Graph) (sub : String) (fuel : Nat) (queue : List Nat) (acc : List Nat)
     (hdone : bfsRest g sub fuel queue = [])
-    (q : Nat) (hq : q ∈ queue) (d : Nat) (hd : Desc g sub q d) (i : String)
-    (hi : g.entityId d = some i) : i ∈ bfsIds g sub fuel queue acc := by
+    (q : Nat) (hq : q ∈ queue) (d : Nat) (hd : Desc g sub q d) : d ∈ bfsKeys g sub fuel queue acc := by
   induction fuel generalizing queue acc q with
   | zero =>
     simp only [bfsRest] at hdone
@@ -63,25 +61,53 @@ theorem bfsIds_complete (g : Graph) (sub : String) (fuel : Nat) (queue : List Na
     cases queue with
     | nil => cases hq
     | cons k queue =>
-      rw [bfsIds_step]
+      rw [bfsKeys_step]
       simp only [bfsRest] at hdone
       rcases List.mem_cons.mp hq with hqk | hqq
       · subst hqk
         cases hd with
         | refl =>
-          apply bfsIds_acc_sub
-          simp [hi]
+          apply bfsKeys_acc_sub
+          simp
         | step hm hrest =>
           exact ih _ _ hdone _ (List.mem_append.mpr (Or.inr hm)) hrest
       · exact ih _ _ hdone q (List.mem_append.mpr (Or.inl hqq)) hd
 
+/-- **soundness of the collection**: only entities at or below a queued entity are collected -/
+theorem bfsKeys_sound (g : Graph) (sub : String) (fuel : Nat) (queue : List Nat) (acc : List Nat)
+    (x : Nat) (h : x ∈ bfsKeys g sub fuel queue acc) :
+    x ∈ acc ∨ ∃ q ∈ queue, Desc g sub q x := by
+  induction fuel generalizing queue acc with
+  | zero => left; simpa [bfsKeys] using h
+  | succ fuel ih =>
+    cases queue with
+    | nil => left; simpa [bfsKeys] using h
+    | cons k queue =>
+      rw [bfsKeys_step] at h
+      rcases ih _ _ h with hacc | ⟨q, hq, hd⟩
+      · simp only [List.mem_append, List.mem_singleton] at hacc
+        rcases hacc with hacc | hxk
+        · left; exact hacc
+        · right; subst hxk; exact ⟨x, by simp, .refl x⟩
+      · right
+        rcases List.mem_append.mp hq with hq | hq
+        · exact ⟨q, List.mem_cons_of_mem _ hq, hd⟩
+        · exact ⟨k, by simp, .step hq hd⟩
+
 /-- the entity itself is always collected (the fuel is at least 1) -/
-theorem subtreeIds_self (g : Graph) (sub : String) (k : Nat) (i : String)
-    (hi : g.entityId k = some i) : i ∈ subtreeIds g sub k := by
-  unfold subtreeIds
-  rw [bfsIds_step]
-  apply bfsIds_acc_sub
-  simp [hi]
+theorem subtreeKeys_self (g : Graph) (sub : String) (k : Nat) : k ∈ subtreeKeys g sub k := by
+  unfold subtreeKeys
+  rw [bfsKeys_step]
+  apply bfsKeys_acc_sub
+  simp
+
+theorem subtreeKeys_sound (g : Graph) (sub : String) (k x : Nat) (h : x ∈ subtreeKeys g sub k) :
+    Desc g sub k x := by
+  rcases bfsKeys_sound g sub _ [k] [] x h with h | ⟨q, hq, hd⟩
+  · cases h
+  · simp only [List.mem_singleton] at hq
+    subst hq
+    exact hd
 
 /-- number of dequeue steps a queue needs: defined only when the hierarchy below the queue is a
 finite forest -/
@@ -114,12 +140,11 @@ theorem bfsRest_done (g : Graph) (sub : String) (fuel : Nat) (queue : List Nat) 
       simp only [bfsRest]
       exact ih _ (b + a) (forestSize_append hr hk) (by omega)
 
-/-- **`subtreeIds` is complete on forests**: if the hierarchy below `k` is a finite forest of at
-most `|nodes|² + 1` entities, every entity at or below `k` has its id in `subtreeIds` -/
-theorem subtreeIds_complete (g : Graph) (sub : String) (k n : Nat)
+/-- **`subtreeKeys` is complete on forests**: if the hierarchy below `k` is a finite forest of at
+most `|nodes|² + 1` entities, every entity at or below `k` is in `subtreeKeys` -/
+theorem subtreeKeys_complete (g : Graph) (sub : String) (k n : Nat)
     (hs : ForestSize g sub [k] n) (hn : n ≤ g.nodes.length * g.nodes.length + 1)
-    (d : Nat) (hd : Desc g sub k d) (i : String) (hi : g.entityId d = some i) :
-    i ∈ subtreeIds g sub k :=
-  bfsIds_complete g sub _ [k] [] (bfsRest_done g sub _ [k] n hs hn) k (by simp) d hd i hi
+    (d : Nat) (hd : Desc g sub k d) : d ∈ subtreeKeys g sub k :=
+  bfsKeys_complete g sub _ [k] [] (bfsRest_done g sub _ [k] n hs hn) k (by simp) d hd
 
 end Nix.Store.C04
